@@ -36,6 +36,7 @@ func checkC18(c *Ctx, r *Report) {
 	r.rule("C18.R1.ecdsa-sig-length", 1, "SIG.Verify compares the ECDSA signature length with twice the curve size before splitting it into r and s")
 	ecdsaSigLength(c, r, "C18.R1.ecdsa-sig-length", "SIG.Verify", "a zero octet put in front of r and of s (66 instead of 64 octets) gives different SIG RDATA that still verifies: an octet of the signed message was altered without Verify noticing")
 	c18NoSizeRefusal(c, r, "C18.R3.no-size-refusal")
+	c18KeyIdentity(c, r, "C18.R1.key-identity")
 }
 
 func c18R1(c *Ctx, r *Report) {
